@@ -47,7 +47,8 @@ func (l *Limiter) Account(bytes int) bool {
 	if l == nil {
 		return true
 	}
-	now := nowNano()
+	now := time.Now().UnixNano()
+	now = verifNow(now)
 	l.mu.Lock()
 	defer l.mu.Unlock()
 	if l.packets != nil {
